@@ -179,7 +179,9 @@ class JsonDocument(HierDictDocument):
                     in_string = in_string.decode(in_string_encoding)
             ctx.in_document = json.loads(in_string, **self.kwargs)
 
-        except JSONDecodeError as e:
+        except (JSONDecodeError, LookupError) as e:
+            # LookupError: the charset in the Content-Type header is not a
+            # codec python knows about
             raise Fault('Client.JsonDecodeError', repr(e))
 
     def create_out_string(self, ctx, out_string_encoding='utf8'):
